@@ -52,7 +52,7 @@ class Check(PropertyCheck):
                   "their deadline, as on a real loop); asyncio's Event/sleep semantics are exercised, not modelled; the "
                   "tie is differential (exhaustive short schedules + random long ones).")
     technique = "Lean 4 proof (invariant over schedules) + virtual-time correspondence with the real watchdog/handler"
-    rule = ("schedules over {activity, hook-enter, hook-exit, tick d}: all well-nested schedules up to length L on a "
+    rule = ("schedules over {activity, hook-enter, hook-exit (normal or by cancellation/exception), tick d}: all well-nested schedules up to length L on a "
             "small clock, then random schedules of length <= 40, each run at two levels (bare TimeoutWatchdog; "
             "ProxyConnectionHandler with real handle_hook tasks). distinct = distinct (level, timeout, ops); "
             "non-trivial = contains at least one hook and one tick.")
@@ -72,14 +72,15 @@ class Check(PropertyCheck):
         depth = 0
         for o in ops:
             if o == "e": depth += 1
-            elif o in ("x", "y"):
+            elif o in ("x", "y", "xc", "yc"):
                 if depth == 0: return False
                 depth -= 1
         return True
 
     def _small(self, L, timeout):
         # "x" completes the most recently started pending hook, "y" the oldest one (overlapping, not nested)
-        alphabet = ["a", "e", "x", "y", ["t", 1], ["t", 2], ["t", timeout]]
+        # "xc"/"yc": the same hook ends by an exception (its task is cancelled / CancelledError leaves the with-block)
+        alphabet = ["a", "e", "x", "y", "xc", ["t", 1], ["t", 2], ["t", timeout]]
         for n in range(1, L + 1):
             for ops in itertools.product(alphabet, repeat=n):
                 if self._wellformed(ops):
@@ -98,7 +99,7 @@ class Check(PropertyCheck):
                 r = rng.random()
                 if r < 0.2: ops.append("a")
                 elif r < 0.4: ops.append("e"); depth += 1
-                elif r < 0.6 and depth: ops.append(rng.choice(["x", "y"])); depth -= 1
+                elif r < 0.6 and depth: ops.append(rng.choice(["x", "y", "x", "y", "xc", "yc"])); depth -= 1
                 else: ops.append(["t", rng.choice([1, 1, 2, timeout - 1 or 1, timeout, timeout + 1])])
             yield {"level": rng.choice(["watchdog", "handler"]), "timeout": timeout, "ops": ops}
 
@@ -121,6 +122,12 @@ class Check(PropertyCheck):
                     cm = w.disarm(); cm.__enter__(); cms.append(cm); pend[0] += 1
                 elif op == "x": cms.pop().__exit__(None, None, None); pend[0] -= 1
                 elif op == "y": cms.pop(0).__exit__(None, None, None); pend[0] -= 1
+                elif op in ("xc", "yc"):
+                    # the hook's task is cancelled: CancelledError travels through the with-block
+                    e = asyncio.CancelledError()
+                    try: (cms.pop() if op == "xc" else cms.pop(0)).__exit__(asyncio.CancelledError, e, None)
+                    except asyncio.CancelledError: pass
+                    pend[0] -= 1
                 else: loop.advance(op[1])
                 loop.pump()
                 out.append([1 if fired else 0, pend[0], loop.ticks()])
@@ -152,17 +159,22 @@ class Check(PropertyCheck):
             h.transports[h.client].handler = ch
             h.timeout_watchdog.register_activity()
             wt = loop.create_task(h.timeout_watchdog.watch()); loop.pump()
-            tasks, out = [], []
+            tasks, out, live = [], [], []
             for op in case["ops"]:
                 if op == "a":
                     loop.create_task(h.server_event(events.Start()))
                 elif op == "e":
                     tasks.append(loop.create_task(h.handle_hook(_Hook(object())))); pend[0] += 1
                     loop.pump()
+                    live.append((tasks[-1], master.addons.gates[-1]))
                 elif op in ("x", "y"):
                     # complete the most recently started ("x") or the oldest ("y") still pending hook
-                    gate = [g for g in master.addons.gates if not g.is_set()][-1 if op == "x" else 0]
+                    t_, gate = live.pop(-1 if op == "x" else 0)
                     gate.set(); pend[0] -= 1
+                elif op in ("xc", "yc"):
+                    # the hook task is cancelled while its addon handler is running
+                    t_, gate = live.pop(-1 if op == "xc" else 0)
+                    t_.cancel(); pend[0] -= 1
                 else: loop.advance(op[1])
                 loop.pump()
                 out.append([1 if fired else 0, pend[0], loop.ticks()])
@@ -182,7 +194,8 @@ class Check(PropertyCheck):
         for op, (f, blocker, ticks) in zip(case["ops"], obs["steps"]):
             if op == "a": last = now
             elif op == "e": depth += 1
-            elif op in ("x", "y"):
+            elif op in ("x", "y", "xc", "yc"):
+                # a hook whose handling ended by an exception is no longer "being handled" either
                 depth -= 1
                 if depth == 0: last = now   # "the idle period restarts when the last pending hook completes"
             else: now += op[1]
@@ -203,7 +216,7 @@ class Check(PropertyCheck):
     def model_lines(self, case):
         lines = [f"reset {case['timeout']}"]
         for op in case["ops"]:
-            lines.append(("x" if op == "y" else op) if isinstance(op, str) else f"t {op[1]}")   # the model counts hooks: which one ends is immaterial
+            lines.append(("x" if op in ("y", "xc", "yc") else op) if isinstance(op, str) else f"t {op[1]}")   # the model counts hooks: which one ends is immaterial
         return lines
 
     def model_obs(self, case, replies):
